@@ -12,14 +12,15 @@ ROps == {"read", "stop"}
 OpsOf(h) ==
   LET m == Meta(h) IN
   SortedSeq({ i \in Idx(h) : /\ h[i].ev = "op_done" /\ Has(h[i], "op")
-      /\ \/ (h[i].src = m.sside /\ h[i].tag = m.stag /\ h[i].op \in SOps)
-         \/ (h[i].src = m.rside /\ h[i].tag = m.rtag /\ h[i].op \in ROps) })
+      /\ \/ (Has(h[i], "tag") /\ h[i].src = m.sside /\ h[i].tag = m.stag /\ h[i].op \in SOps)
+         \/ (Has(h[i], "tag") /\ h[i].src = m.rside /\ h[i].tag = m.rtag /\ h[i].op \in ROps)
+         \/ (h[i].src = m.rside /\ h[i].op = "close") })      \* the receiving side closes the connection
 
 ErrRes(err) == R(err.k, IF Has(err, "code") THEN err.code ELSE NoCode, 0)
 
 \* abstraction of a recorded op_done event to (operation, result)
 AbsOp(e) ==
-  [side |-> IF e.op \in SOps THEN "S" ELSE "R", op |-> e.op,
+  [side |-> IF e.op \in SOps THEN "S" ELSE "R", op |-> IF e.op = "close" THEN "lose" ELSE e.op,
    code |-> IF Has(e, "code") THEN e.code ELSE NoCode,
    n |-> IF e.op = "write" THEN e.len ELSE 0]
 
@@ -30,7 +31,7 @@ AbsRes(e) ==
     [] e.op \in {"finish", "stopped"} ->
          IF e.res.k = "err" THEN ErrRes(e.res.err) ELSE R(e.res.k, NoCode, 0)
     [] e.op = "reset" -> R(e.res, NoCode, 0)
-    [] e.op = "stop" -> R(e.res, NoCode, 0)
+    [] e.op \in {"stop", "close"} -> R(e.res, NoCode, 0)
     [] e.op = "read" ->
          IF e.end.k = "err" THEN R(e.end.err.k, IF Has(e.end.err, "code") THEN e.end.err.code ELSE NoCode, e.len)
          ELSE R(e.end.k, NoCode, e.len)
